@@ -118,7 +118,10 @@ Proof.
     destruct H as (he & fibs & cd & cd' & mods & ch & rg & rg' & gl & out & lo & ex & st & -> & ->).
     cbn. destruct (mget m mods) as [[]|]; cbn.
     + split; [apply meq_refl_parts | reflexivity].
-    + split; [apply raise_meq; apply meq_refl_parts | reflexivity].
+    + unfold is_loading; cbn. destruct (existsb (modk_eqb m) lo); cbn.
+      * split; [apply raise_meq; apply meq_refl_parts | reflexivity].
+      * destruct m; cbn; split; try reflexivity;
+          first [ apply meq_refl_parts | apply raise_meq; apply meq_refl_parts ].
     + destruct m; cbn; split; try reflexivity;
         first [ apply meq_refl_parts | apply raise_meq; apply meq_refl_parts ].
 Qed.
@@ -126,6 +129,8 @@ Qed.
 Lemma step_pre_nodef : forall i s, nodef (snd (step i s)) = true.
 Proof.
   intros i s; destruct i; cbn; try reflexivity; destr_states; cbn; lookups; try reflexivity.
+  all: unfold is_loading; cbn;
+       try match goal with |- context [existsb ?p ?l] => destruct (existsb p l) end; try reflexivity.
   all: match goal with m : modk |- _ => destruct m; reflexivity end.
 Qed.
 
